@@ -216,7 +216,7 @@ func gen(r *vh.Rand, tier string, n int, emit func(vh.Case)) {
 		if r.Chance(1, 6) {
 			// DynamicDirectory in block mode with a small per-directory threshold (monitor only: while the
 			// directory is still a single block after an AddChild, that block must fit the threshold)
-			c.Ops = append(c.Ops, fmt.Sprintf("dynnew %d %s %s", r.Range(120, 700), modeTok(r), timeTok(r)))
+			c.Ops = append(c.Ops, fmt.Sprintf("dynnew %d %s %s %s", r.Range(120, 700), modeTok(r), timeTok(r), vh.Pick(r, []string{"B", "B", "B", "L"})))
 			held := map[string]cid.Cid{}
 			var heldNames []string
 			for j, m := 0, 10+r.Intn(40); j < m; j++ {
@@ -340,6 +340,7 @@ func parseCid(h string) cid.Cid {
 type st struct {
 	dyn       uio.Directory // DynamicDirectory under the monitor-only dyn* ops (nil once sharded)
 	dynThr    int
+	dynLinks  bool // the DynamicDirectory uses the legacy links estimate
 	d         *uio.BasicDirectory
 	reloaded  bool   // the directory object was rebuilt from its node at least once
 	statDrift bool   // SetStat was called on this directory object (its stored mode/mtime differ from the node's)
@@ -347,6 +348,14 @@ type st struct {
 	edits     int
 	est       uio.SizeEstimationMode
 	maxLinks  int
+}
+
+func legacySize(nd ipld.Node) int {
+	t := 0
+	for _, l := range nd.Links() {
+		t += len(l.Name) + l.Cid.ByteLen()
+	}
+	return t
 }
 
 func (s *st) answer(o *vh.Out, res string) {
@@ -529,7 +538,13 @@ func exec(c vh.Case, o *vh.Out) {
 			s.answer(o, "ok")
 		case "dynnew":
 			md, t := os.FileMode(uint32(u64(f[2]))), parseTime(f[3], f[4])
-			d, err := uio.NewDirectory(mdtest.Mock(), uio.WithSizeEstimationMode(uio.SizeEstimationBlock), uio.WithStat(md, t))
+			s.dynLinks = len(f) > 5 && f[5] == "L"
+			em := uio.SizeEstimationBlock
+			if s.dynLinks {
+				em = uio.SizeEstimationLinks
+				o.Kind("dyn-links-mode")
+			}
+			d, err := uio.NewDirectory(mdtest.Mock(), uio.WithSizeEstimationMode(em), uio.WithStat(md, t))
 			if err != nil {
 				panic(err)
 			}
@@ -542,6 +557,12 @@ func exec(c vh.Case, o *vh.Out) {
 			if s.dyn != nil {
 				if nd, err := s.dyn.GetNode(); err == nil {
 					s.dynThr = len(nd.RawData()) + vh.Atoi(f[1])
+					if s.dynLinks {
+						s.dynThr = legacySize(nd) + vh.Atoi(f[1])
+					}
+					if s.dynThr == 0 {
+						s.dynThr = 1 // 0 means "use the global threshold"
+					}
 					s.dyn.SetHAMTShardingSize(s.dynThr)
 					o.Kind("dyn-fit")
 				}
@@ -564,7 +585,9 @@ func exec(c vh.Case, o *vh.Out) {
 				} else if fsn, err := unixfs.FSNodeFromBytes(nd.(*merkledag.ProtoNode).Data()); err != nil || fsn.Type() != unixfs.TDirectory {
 					o.Kind("dyn-sharded")
 					s.dyn = nil
-				} else if got := len(nd.RawData()); f[0] == "dynadd" && got > s.dynThr {
+				} else if got := legacySize(nd); f[0] == "dynadd" && s.dynLinks && got > s.dynThr {
+					o.Fail("basic-links-estimate-over-threshold", "links mode: after AddChild the directory is still basic with name+CID bytes %d, threshold %d", got, s.dynThr)
+				} else if got := len(nd.RawData()); f[0] == "dynadd" && !s.dynLinks && got > s.dynThr {
 					// the decision must have been taken on the exact size of this block
 					o.Fail("basic-block-over-threshold", "after AddChild the directory is still one block of %d bytes, sharding threshold %d", got, s.dynThr)
 				} else {
